@@ -175,7 +175,7 @@ pub fn run(ctx: &Ctx) -> Report {
          non-trivial = has an optional field, a property or a boundary length; distinct by hash of the encoded bytes",
     );
     let o = gen::GenOpts { big: true, beyond_spec: true };
-    let n = ctx.tier.pick(150_000, 3_000_000);
+    let n = ctx.tier.pick(400_000, 3_000_000);
     let (st, v) = search(ctx, "c02.roundtrip", n, || case_strategy(o), test);
     rep.absorb("roundtrip", st, v, false);
     let feats: Vec<&str> = [
